@@ -1,5 +1,6 @@
-//! C13: the real `InMemorySessionStore` and `SqliteSessionStore` driven in-process through the
-//! `SessionStorageBackend` trait on operation histories (sequential and concurrent).
+//! C13: the real `InMemorySessionStore` and `SqliteSessionStore` driven in-process through
+//! `SessionStore` (= the `SessionStorageBackend` trait object) on operation histories, sequential
+//! and concurrent.
 //!
 //! Protocol (one JSON object per line):
 //!   {"kind":"seq", "backend":"mem"|"sqlite", "mode":"virtual"|"real", "q":MS, "phase":MS,
@@ -14,9 +15,9 @@
 //! depends on a wall-clock race. In "real" mode `advance` sleeps until `start + sum(advance)`.
 //! Answers never contain wall-clock values: deadlines are reported relative to "now", rounded
 //! up to the unit `q`.
-use pavex_session::SessionId;
+use pavex_session::{SessionId, SessionStore};
 use pavex_session::store::errors::*;
-use pavex_session::store::{SessionRecordRef, SessionStorageBackend};
+use pavex_session::store::SessionRecordRef;
 use pavex_session_memory_store::InMemorySessionStore;
 use pavex_session_sqlx::SqliteSessionStore;
 use pxh::{Json, json};
@@ -43,10 +44,18 @@ fn real_ms() -> u128 {
     SystemTime::now().duration_since(UNIX_EPOCH).unwrap().as_millis()
 }
 
+/// The store under test, reached the way an application reaches it (`SessionStore` wrapping the
+/// backend), plus a raw handle for the verification-only side channel (dump / virtual time).
 #[derive(Clone)]
-enum Backend {
+struct Backend {
+    store: Arc<SessionStore>,
+    raw: Raw,
+}
+
+#[derive(Clone)]
+enum Raw {
     Mem(InMemorySessionStore),
-    Sqlite(SqliteSessionStore, sqlx::SqlitePool),
+    Sqlite(sqlx::SqlitePool),
 }
 
 static DBSEQ: AtomicU64 = AtomicU64::new(0);
@@ -54,7 +63,10 @@ static DBSEQ: AtomicU64 = AtomicU64::new(0);
 impl Backend {
     async fn new(which: &str, file_dir: Option<&str>) -> Result<Backend, String> {
         match which {
-            "mem" => Ok(Backend::Mem(InMemorySessionStore::new())),
+            "mem" => {
+                let s = InMemorySessionStore::new();
+                Ok(Backend { store: Arc::new(SessionStore::new(s.clone())), raw: Raw::Mem(s) })
+            }
             "sqlite" => {
                 let pool = match file_dir {
                     // the way the crate's own tests get a pool offline
@@ -74,29 +86,26 @@ impl Backend {
                 .map_err(|e| format!("pool: {e}"))?;
                 let store = SqliteSessionStore::new(pool.clone());
                 store.migrate().await.map_err(|e| format!("migrate: {e}"))?;
-                Ok(Backend::Sqlite(store, pool))
+                Ok(Backend { store: Arc::new(SessionStore::new(store)), raw: Raw::Sqlite(pool) })
             }
             other => Err(format!("unknown backend {other:?}")),
         }
     }
 
-    fn store(&self) -> &dyn SessionStorageBackend {
-        match self {
-            Backend::Mem(s) => s,
-            Backend::Sqlite(s, _) => s,
-        }
+    fn store(&self) -> &SessionStore {
+        &self.store
     }
 
     /// Every record physically present: (id, deadline - now) rounded up to `q` ms, in ms.
     async fn dump(&self, q: i128) -> Vec<(u64, i128)> {
-        let mut v: Vec<(u64, i128)> = match self {
-            Backend::Mem(s) => s
+        let mut v: Vec<(u64, i128)> = match &self.raw {
+            Raw::Mem(s) => s
                 .verif_dump()
                 .await
                 .into_iter()
                 .map(|(id, ns)| (unsid(&id), ceil_div(ns, q * 1_000_000) * q))
                 .collect(),
-            Backend::Sqlite(_, pool) => {
+            Raw::Sqlite(pool) => {
                 let now_s = (real_ms() / 1000) as i128;
                 let rows = sqlx::query("SELECT id, deadline FROM sessions").fetch_all(pool).await.unwrap();
                 rows.iter()
@@ -114,9 +123,9 @@ impl Backend {
     }
 
     async fn age(&self, ms: u64) {
-        match self {
-            Backend::Mem(s) => s.verif_age(Duration::from_millis(ms)).await,
-            Backend::Sqlite(_, pool) => {
+        match &self.raw {
+            Raw::Mem(s) => s.verif_age(Duration::from_millis(ms)).await,
+            Raw::Sqlite(pool) => {
                 sqlx::query("UPDATE sessions SET deadline = deadline - ?")
                     .bind((ms / 1000) as i64)
                     .execute(pool)
@@ -127,7 +136,7 @@ impl Backend {
     }
 
     async fn close(self) {
-        if let Backend::Sqlite(_, pool) = self {
+        if let Raw::Sqlite(pool) = self.raw {
             pool.close().await;
         }
     }
